@@ -25,6 +25,7 @@
 #include <iv_fd_pump.h>
 #include <iv_list.h>
 #include <iv_tls.h>
+#include <poll.h>
 #include <string.h>
 #include <sys/ioctl.h>
 #include "iv_private.h"
@@ -307,8 +308,23 @@ static int iv_fd_pump_try_input(struct iv_fd_pump *ip)
 			int bytes = 1;
 
 			ioctl(ip->from_fd, FIONREAD, &bytes);
-			if (bytes > 0)
+			if (bytes > 0) {
 				ip->full = 1;
+			} else {
+				struct pollfd pfd;
+
+				/*
+				 * No bytes pending but the input is readable:
+				 * end-of-file is waiting behind a full pipe.
+				 * Stop asking for input until output has made
+				 * room, or we'll be called in a tight loop.
+				 */
+				pfd.fd = ip->from_fd;
+				pfd.events = POLLIN;
+				if (poll(&pfd, 1, 0) > 0 &&
+				    (pfd.revents & (POLLIN | POLLHUP)))
+					ip->full = 1;
+			}
 		}
 
 		return 0;
